@@ -4,7 +4,7 @@ import MypyVerif.Proofs.Fold
 
 Quantifiers: every operator, every `int` (unbounded), `bool`, `str`, `bytes` operand, every expression
 tree over them (any depth), both folders (`ext = false`: mypy/constant_fold.py, `ext = true`:
-mypyc/irbuild/constant_fold.py).  Floats are opaque (`Res.float`).
+mypyc/irbuild/constant_fold.py).  Int true division yields the symbolic oracle value `Res.quot a b`.
 
 * `fold_sound`        binary operators: a folded result is CPython's result (value and type) — unconditional
 * `fold_complete` / `fold_exact`   below the size guard (`belowGuard`, decidable, read from the source by the
@@ -12,7 +12,8 @@ mypyc/irbuild/constant_fold.py).  Floats are opaque (`Res.float`).
 * `fold_declines_above_guard`      above it the folder returns nothing
 * `fold_guarded_int_bound` / `fold_guarded_seq_bound`   values built by guarded operators stay within the bound
 * `guard_config_complete`          a declared bound guards every size-increasing operator (regenerated constants)
-* `fold_float_iff`    the folder returns a float ⇔ the operator is `/` and CPython does not raise
+* `fold_truediv_exact` / `fold_quot_operands`   int `/` int: the folder returns CPython's correctly rounded
+                      quotient of exactly the two operand integers (an oracle `quot`, realised by the tie)
 * `fold_unary_exact_status` / `not_fold_unary_exact` / `fold_unary_partial`   the full unary statement holds
                       iff the folder under check does not return the `bool` operand for `+` (F25; generated constant)
 * `foldExpr_sound_partial` / `not_foldExpr_sound` the same for whole expression trees
@@ -225,51 +226,72 @@ theorem guard_config_complete :
       Cfg.guardBytesAdd = true ∧ Cfg.guardBytesMulR = true ∧ Cfg.guardBytesMulL = true) := by
   decide
 
-/-- a float result is produced exactly for true division of ints by a non-zero int -/
-theorem fold_float_iff (ext : Bool) (op : Op) (a b : Val) :
-    foldBin ext op a b = some .float ↔ (pyBin op a b = .ok .float ∧ op = .truediv) := by
+/-- **fold_truediv_exact** — exactness of int true division *relative to the oracle* `quot`: the folder
+    returns "CPython's float quotient of the integers `x` and `y`" if and only if CPython evaluates `a op b`
+    to that same quotient (same two integers, one rounding) without raising — i.e. exactly for `/` on two
+    int/bool operands with a non-zero divisor and a representable result.  What the float *is* lies outside
+    Lean (`Float` cannot express correctly rounded rational division): the harness evaluates the oracle with
+    the running interpreter and compares the real folders' floats with it bit for bit on every generated pair. -/
+theorem fold_truediv_exact (ext : Bool) (op : Op) (a b : Val) (x y : Int) :
+    foldBin ext op a b = some (.quot x y) ↔ pyBin op a b = .ok (.quot x y) := by
   constructor
+  · exact fold_sound ext op a b (.quot x y)
   · intro h
-    have hop : op = .truediv := by
-      unfold foldBin at h
-      split at h
-      · cases op <;> cases a <;> cases b <;> simp [Val.asInt] at h <;>
-          exact absurd h (foldRepeat_ne_float _ _ _ _)
-      · unfold foldBinOp at h
-        cases ha : a.asInt with
-        | some x =>
-          cases hb : b.asInt with
-          | some y =>
-            simp only [ha, hb] at h
-            cases op <;> simp [foldBinInt] at h <;> first | rfl | (cases hbb : bothBool a b with
-              | none => simp [hbb] at h
-              | some p => cases p; simp [hbb] at h)
-          | none =>
-            simp only [ha, hb] at h
-            cases op <;> cases a <;> cases b <;> simp [Val.asInt] at ha hb h <;>
-              exact absurd h (foldRepeat_ne_float _ _ _ _)
-        | none =>
-          simp only [ha] at h
-          cases op <;> cases a <;> cases b <;> simp [Val.asInt] at ha h <;>
-            exact absurd h (foldRepeat_ne_float _ _ _ _)
-    subst hop
-    exact ⟨fold_sound ext .truediv a b .float h, rfl⟩
-  · rintro ⟨h, rfl⟩
     cases ha : a.asInt with
-    | some x =>
+    | some u =>
       cases hb : b.asInt with
-      | some y =>
+      | some w =>
         have h1 : a.isBytes = false := by cases a <;> simp [Val.asInt] at ha <;> rfl
         have h2 : b.isBytes = false := by cases b <;> simp [Val.asInt] at hb <;> rfl
-        simp only [pyBin, ha, hb, pyBinInt] at h
-        simp only [foldBin, h1, h2, Bool.or_self, Bool.and_false, foldBinOp, ha, hb, foldBinInt]
-        split at h
-        · cases h
-        · rename_i hne; simp [hne]
+        simp only [pyBin, ha, hb] at h
+        simp only [foldBin, h1, h2, Bool.or_self, Bool.and_false, foldBinOp, ha, hb]
+        exact foldBinInt_quot op _ u w x y h
       | none =>
-        cases a <;> cases b <;> simp [Val.asInt] at ha hb <;> simp [pyBin, Val.asInt] at h
+        exfalso
+        cases op <;> cases a <;> cases b <;> simp [Val.asInt] at ha hb <;> simp [pyBin, Val.asInt] at h <;>
+          exact absurd h (seqMul_ne_quot _ _ _ _ _)
     | none =>
-      cases a <;> cases b <;> simp [Val.asInt] at ha <;> simp [pyBin, Val.asInt] at h
+      exfalso
+      cases op <;> cases a <;> cases b <;> simp [Val.asInt] at ha <;> simp [pyBin, Val.asInt] at h <;>
+        exact absurd h (seqMul_ne_quot _ _ _ _ _)
+
+/-- the symbolic quotient is produced by `/` only, on exactly the operands' integer values -/
+theorem fold_quot_operands (ext : Bool) (op : Op) (a b : Val) (x y : Int)
+    (h : foldBin ext op a b = some (.quot x y)) :
+    op = .truediv ∧ a.asInt = some x ∧ b.asInt = some y ∧ y ≠ 0 ∧ divOverflows x y = false := by
+  have hp := fold_sound ext op a b _ h
+  cases ha : a.asInt with
+  | some u =>
+    cases hb : b.asInt with
+    | some w =>
+      simp only [pyBin, ha, hb] at hp
+      cases op <;> simp only [pyBinInt] at hp
+      case truediv =>
+        split at hp
+        · cases hp
+        · rename_i hne
+          split at hp
+          · cases hp
+          · rename_i ho
+            injection hp with hp; injection hp with h1 h2; subst h1; subst h2
+            exact ⟨rfl, rfl, rfl, hne, by simpa using ho⟩
+      case add | sub | mul => cases hp
+      case floordiv | mod => split at hp <;> cases hp
+      case band | bor | bxor => split at hp <;> cases hp
+      case lshift | rshift => split at hp <;> cases hp
+      case pow =>
+        split at hp
+        · split at hp <;> cases hp
+        · cases hp
+      case matmul => cases hp
+    | none =>
+      exfalso
+      cases op <;> cases a <;> cases b <;> simp [Val.asInt] at ha hb <;> simp [pyBin, Val.asInt] at hp <;>
+        exact absurd hp (seqMul_ne_quot _ _ _ _ _)
+  | none =>
+    exfalso
+    cases op <;> cases a <;> cases b <;> simp [Val.asInt] at ha <;> simp [pyBin, Val.asInt] at hp <;>
+      exact absurd hp (seqMul_ne_quot _ _ _ _ _)
 
 /-- the full statement "the folder returns `r` ⇔ CPython evaluates to `r`" fails only in the harmless
     direction: CPython evaluates `2 ** -1` (to a float), the folder declines -/
@@ -373,12 +395,14 @@ theorem foldExpr_sound_partial (ext : Bool) (e : Expr) : ∀ (r : Res), PlusBool
     | some rl =>
       cases rl with
       | float => simp [hl] at h
+      | quot _ _ => simp [hl] at h
       | val a =>
         cases hr : foldExpr ext r with
         | none => simp [hl, hr] at h
         | some rr =>
           cases rr with
           | float => simp [hl, hr] at h
+          | quot _ _ => simp [hl, hr] at h
           | val b =>
             simp only [hl, hr] at h
             have e1 := ihl (.val a) hp.1 hl
@@ -393,6 +417,7 @@ theorem foldExpr_sound_partial (ext : Bool) (e : Expr) : ∀ (r : Res), PlusBool
     | some re =>
       cases re with
       | float => simp [he] at h
+      | quot _ _ => simp [he] at h
       | val a =>
         simp only [he] at h
         have e1 := ih (.val a) hp.1 he
@@ -467,6 +492,14 @@ example : Cfg.maxFoldedStrLength = 65536 → Cfg.guardStrMulR = true → Cfg.gua
     belowGuard true .mul (.bytes [1]) (.int 65537) = false ∧ belowGuard false .mul (.bytes [1]) (.int 65537) = true ∧
     foldBin true .mul (.bytes [1]) (.int 65537) = none := by
   decide
+example : foldBin false .truediv (.int 9007199254740993) (.int 3) = some (.quot 9007199254740993 3) ∧
+    foldBin true .truediv (.bool true) (.int (-7)) = some (.quot 1 (-7)) ∧
+    foldBin false .truediv (.int 1) (.int 0) = none := by decide
+set_option exponentiation.threshold 2000 in
+example : foldBin false .truediv (.int (10 ^ 400)) (.int 1) = none ∧
+    pyBin .truediv (.int (10 ^ 400)) (.int 1) = .raises .overflowError ∧
+    foldBin false .truediv (.int (10 ^ 400)) (.int (10 ^ 200)) = some (.quot (10 ^ 400) (10 ^ 200)) := by
+  decide +kernel
 example : foldBin false .floordiv (.int (-7)) (.int 2) = some (.val (.int (-4))) := by decide
 example : foldBin false .mod (.int 7) (.int (-2)) = some (.val (.int (-1))) := by decide
 example : foldBin false .floordiv (.int 1) (.int 0) = none ∧
